@@ -53,7 +53,7 @@ theorem CellInv.setJ {s : State F} {T : Int → Int → F} {h w n vr vc i : Nat}
     CellInv { s with ienv := setS s.ienv "j" x } T h w n vr vc i :=
   ⟨c.ctl, c.shInr, c.shE, c.lenE, c.shEL, c.lenEL, c.shD, c.lenD, c.shV, c.lenV, c.ring,
    by simp [setS_apply, c.vi], by simp [setS_apply, c.nr], by simp [setS_apply, c.nc], by simp [setS_apply, c.vpr],
-   by simp [setS_apply, c.vpc]⟩
+   by simp [setS_apply, c.vpc], c.shR⟩
 
 
 theorem getD_setRow3 (el : List F) (c : Nat) (f0 f1 f2 : Nat → F) (idx : Nat) (hlen : (c + 3) * 7 ≤ el.length) :
